@@ -11,6 +11,7 @@ import SspModel.Model.Schedule
 import SspModel.Model.Extract
 import SspModel.Model.Validate
 import SspModel.Model.FeH
+import SspModel.Model.Kroupa
 /-!
 # Line-protocol driver: one op per line in, one line out. Doubles cross as 16-hex-digit bit patterns.
 Runs the *same* model terms the theorems are about, at the `Float` instance.
@@ -238,6 +239,16 @@ def step (ws : List String) : String :=
   | ["snap", lo, hi, x] =>
     let (neg, m, e) := decodeDouble (parseHex x)
     nameStr (Model.FeH.snapName lo.toInt! hi.toInt! neg m e)
+  | ["kmom0", xmin, xmax, a] => toHex (kMom0 (parseHex xmin) (parseHex xmax) (parseHex a))
+  | ["kmom1", xmin, xmax, a] => toHex (kMom1 (parseHex xmin) (parseHex xmax) (parseHex a))
+  | ["kgetmass", x, sl, xmin, xmax] => toHex (kGetmass (parseHex x) (parseHex sl) (parseHex xmin) (parseHex xmax))
+  | "kroupa" :: rest =>
+    -- a list, mlim list, then evaluation points -> "norm | C... | eval..."
+    let (a, r1) := takeList rest
+    let (mlim, r2) := takeList r1
+    let (xs, _) := takeList r2
+    let cs := (List.range a.length).map (kC a mlim)
+    s!"{toHex (kNorm a mlim)} | {fl cs} | {" ".intercalate (xs.map fun x => optHex (kEval a mlim x))}"
   | ["mrem", d, mb, mt] => toHex (Mrem (parseHex d) (parseHex mb) (parseHex mt))
   | ["sigmoid", slope, scale, m] => toHex (sigmoidRet (parseHex slope) (parseHex scale) (parseHex m))
   | ["erf", x] => toHex (Scalar.erf (parseHex x))
